@@ -22,6 +22,8 @@ case "$ID" in
   C16) TARGETS="c16_glyf"; MAXLEN=2560 ;;
   C06) TARGETS="c06_cmap"; MAXLEN=1024 ;;
   C10) TARGETS="c10_container"; MAXLEN=640 ;;
+  C12) TARGETS="c12_instance"; MAXLEN=2048 ;;
+  C08) TARGETS="c08_subset_cmap"; MAXLEN=768 ;;
   C13) TARGETS="c13_norm"; MAXLEN=320 ;;
   C17) TARGETS="c17_text"; MAXLEN=256 ;;
   *) exit 0 ;;
